@@ -1712,7 +1712,15 @@ def explore_c11(ctx, res, replay_ops=None):
             except ValueError:
                 body = "?"
             res.sample({"kind": kind, "body": body[:160], "answer": im})
-        if st == "hang":
+        if kind == "hist" and (st == "hang" or st[:1] == "5" or "hang" in (fu, fu2) or fu[:1] == "5" or fu2[:1] == "5" or fu != "200" or fu2 != "204"):
+            names = {"c": "valid create", "b": "create refused by OpenCDR", "n": "create without consumer identification", "o": "one-time event", "u": "update",
+                     "x": "update naming an unknown reference", "r": "release", "R": "recharge"}
+            res.violation("oracle", "C11: history [%s] of one subscriber was answered %s (4 s per request); the well-formed create+update / release that followed: %s / %s "
+                          "(hang = not answered within 4 s: the subscriber is blocked)" % (", ".join(names.get(c, c) for c in t[3]), d.get("hist", "?"), fu, fu2),
+                          [op, "# impl: " + im])
+        elif kind == "hist":
+            pass
+        elif st == "hang":
             res.violation("oracle", "C11: the request was not answered within 40 s", [op, "# impl: " + im])
         elif st[:1] == "5":
             res.violation("oracle", "C11: the request was answered %s (handler panic or server error) instead of a 4xx problem description" % st,
